@@ -136,6 +136,22 @@ fn check_c03(plan: &Plan, out: &Outcome) -> Verdict {
                         if !reliable {
                             continue;
                         }
+                        // a reader whose deletion (or whose participant's crash / deletion) had begun before the call returned
+                        // is no longer a matched reader the call must have waited for, and its cache cannot be read any more
+                        let part = p.readers.iter().find(|x| x.0 == *rid).map(|x| x.2);
+                        let departing = h.recs.iter().any(|d| {
+                            d.inv_step <= rec.ret_step
+                                && match &d.op {
+                                    Op::DeleteReader { id, .. } => id == rid,
+                                    Op::Crash { p } | Op::DeleteParticipant { p } => Some(*p) == part,
+                                    Op::DeleteContained { kind, id } => (kind == "participant" && Some(*id) == part) || kind == "subscriber",
+                                    _ => false,
+                                }
+                        });
+                        if departing {
+                            v.probe("waitacks.departing-reader-skipped", 1);
+                            continue;
+                        }
                         let Some((_, seqs)) = held.iter().find(|x| x.0 == *rid) else { continue };
                         let missing: Vec<&u32> = must.iter().filter(|u| !seqs.contains(u)).collect();
                         if !missing.is_empty() {
